@@ -1111,6 +1111,14 @@ func k17Angle(c k17AngleCase, emit func(any)) {
 		r := toolbox3d.CanonicalAngle(ang(c.K))
 		rec.Canon, rec.CanonEx = k17Int(r, 12/math.Pi)
 		rec.InRange = r >= 0 && r < 2*math.Pi
+		// the same angle a hair to either side (down to the smallest denormal): still inside [0, 2 pi)
+		for _, tiny := range []float64{1e-17, 5e-324, 4e-16, 1e-300, 3e-16} {
+			for _, sg := range []float64{-1, 1} {
+				if q := toolbox3d.CanonicalAngle(ang(c.K) + sg*tiny); !(q >= 0 && q < 2*math.Pi) {
+					rec.InRange = false
+				}
+			}
+		}
 		rec.Raw = k17Raw(r)
 		for j := -c.Bound; j <= c.Bound; j++ {
 			d, ok := k17Int(toolbox3d.AngleDist(ang(c.K), ang(j)), 12/math.Pi)
